@@ -389,6 +389,34 @@ theorem attrDoc_coherent : Coherent attrDoc.target := by
   have e2 : keysMap attrDoc.target = ["a".toList, "c".toList] := by decide
   rw [e1, e2]
 
+/-- Why `Coherent` compares SETS of names: `{ a.b = 1; c = 2; a.d = 3; }` as parsed has one merged
+    root `a` in `values` and two entries in `attrpath_order`; text and mapping agree on the names
+    although the lists differ. -/
+def familyDoc : Doc :=
+  { target := .set 1
+      [.bind 2 "a".toList true
+          (.set 3 [.bind 4 "b".toList false (.atom "1".toList) [] [],
+                   .bind 7 "d".toList false (.atom "3".toList) [] []] [] true false) [] [],
+       .bind 5 "c".toList false (.atom "2".toList) [] []]
+      [.entry ["a".toList, "b".toList] (.bind 4 "b".toList false (.atom "1".toList) [] []) (some [])
+          (some []),
+       .bind 5 "c".toList false (.atom "2".toList) [] [],
+       .entry ["a".toList, "d".toList] (.bind 7 "d".toList false (.atom "3".toList) [] []) (some [])
+          (some [])] false false,
+    next := 8 }
+
+theorem coherent_is_about_sets :
+    Coherent familyDoc.target ∧ keysText familyDoc.target ≠ keysMap familyDoc.target := by
+  refine ⟨?_, by decide⟩
+  intro k
+  have e1 : keysText familyDoc.target = ["a".toList, "c".toList, "a".toList] := by decide
+  have e2 : keysMap familyDoc.target = ["a".toList, "c".toList] := by decide
+  rw [e1, e2]
+  simp only [List.mem_cons, List.not_mem_nil, or_false]
+  constructor
+  · rintro (h | h | h) <;> simp [h]
+  · rintro (h | h) <;> simp [h]
+
 /-- Open known finding C14-attrpath-family-del: `del src["a"]` removes `a` from the mapping, the
     text still shows `a.b = 1;` (`item is binding` never matches an `_AttrpathEntry`). -/
 theorem cex_del_attrpath_root :
